@@ -21,7 +21,12 @@ type vestModel struct {
 }
 
 func rewardVariant(k int64) sdk.Coins {
-	switch kernel.Mod(k, 11) {
+	switch kernel.Mod(k, 13) {
+	case 11:
+		// a paused denomination (zero amount) listed before a paying one
+		return sdk.Coins{sdk.Coin{Denom: "coina", Amount: sdk.ZeroInt()}, sdk.NewCoin(node.Denom, sdk.NewInt(7))}
+	case 12:
+		return sdk.Coins{sdk.Coin{Denom: "coina", Amount: sdk.ZeroInt()}, sdk.NewCoin("coinb", sdk.NewInt(2)), sdk.NewCoin(node.Denom, sdk.NewInt(9))}
 	case 8:
 		return sdk.Coins{sdk.Coin{Denom: "1x", Amount: sdk.NewInt(5)}, sdk.NewCoin(node.Denom, sdk.NewInt(2))} // not a valid bank denomination
 	case 9:
